@@ -401,15 +401,12 @@ func (sc *StateContext) GetTrieNode(key datastore.Key, v util.MPTSerializable) e
 
 	cv, ok := sc.Cache().Get(key)
 	if ok {
-		ccv, ok := statecache.Copyable(v)
-		if !ok {
-			panic("state context cache - get trie node not copyable")
+		// Keys are shared by entity types (e.g. every provider type lives under provider:<id>), so the
+		// cached value may be of another type than the one asked for: then answer from the trie, as a
+		// node with a cold cache does, instead of panicking.
+		if ccv, ok := statecache.Copyable(v); ok && ccv.CopyFrom(cv) {
+			return nil
 		}
-
-		if !ccv.CopyFrom(cv) {
-			panic("state context cache - get trie node copy from failed")
-		}
-		return nil
 	}
 
 	// get from MPT
